@@ -565,6 +565,9 @@ pub fn generate(r: &mut Rng, hi: u64, lo: u64) -> FmtCase {
             Some(((1u64 << bits) + r.below(1u64 << bits)).min(1100) as usize)
         }
     };
+    // now and then a very large precision: fixed-size render buffers and precision clamps above the
+    // usual range must not go unnoticed
+    let prec = if r.chance(1, 400) { Some(*r.pick(&[3000usize, 10_000, 30_000])) } else { prec };
     // Bias towards the precision at which a word is an exact decimal tie (a
     // dyadic rational with f fractional bits ties at precision f - 1): that is
     // where a wrong rounding mode shows.
